@@ -3,6 +3,7 @@ package v1
 import (
 	"crypto"
 	"crypto/ecdsa"
+	"crypto/rsa"
 	"encoding/asn1"
 
 	"github.com/wokdav/gopki/generator"
@@ -36,8 +37,8 @@ func vVerifiesEcSha256(crt *cert.Certificate, key *ecdsa.PrivateKey) bool {
 	return ecdsa.VerifyASN1(&key.PublicKey, h.Sum(nil), crt.SignatureValue.Bytes)
 }
 
-// vhManipulations: C19 by self-composition. The same configuration (P-256 key
-// given, SKI hash extension, fixed serial and clock) is generated without
+// vhManipulations: C19 by self-composition. The same configuration (P-256 or
+// RSA-2048 key given, SKI hash extension, fixed serial and clock) is generated without
 // manipulations and with every subset of the six manipulation keys whose
 // values are symbolic; each named field must carry exactly the given value,
 // all other fields must equal the baseline, and the signature must verify
@@ -45,9 +46,14 @@ func vVerifiesEcSha256(crt *cert.Certificate, key *ecdsa.PrivateKey) bool {
 func vhManipulations() {
 	vClockFixed(1709640000)
 	kctx := cert.NewCertificateContext(nil, nil, vFixedFrom(), vFixedFrom())
-	vAssert(kctx.GeneratePrivateKey(cert.P256) == nil, "key generation failed")
-	key := kctx.PrivateKey.(*ecdsa.PrivateKey)
-	base := CertConfig{Subject: "CN=x", SerialNumber: 4711, Extensions: []AnyExtension{
+	useRsa := vChoose("keyType", 2) == 1
+	keyAlg, keyAlgName := cert.P256, "P-256"
+	if useRsa {
+		keyAlg, keyAlgName = cert.RSA2048, "RSA-2048"
+	}
+	vAssert(kctx.GeneratePrivateKey(keyAlg) == nil, "key generation failed")
+	key := kctx.PrivateKey
+	base := CertConfig{Subject: "CN=x", SerialNumber: 4711, KeyAlgorithm: keyAlgName, Extensions: []AnyExtension{
 		{SubjectKeyIdentifier: &SubjectKeyIdentifier{Content: "hash"}}}}
 	b, err := vGenerateWithKey(base, key)
 	vAssert(err == nil, "baseline generation failed")
@@ -140,7 +146,13 @@ func vhManipulations() {
 	if sub&16 != 0 {
 		vSameBytes(c.SignatureValue.Bytes, sigval, ".signatureValue is not the given bytes")
 	} else {
-		vAssert(vVerifiesEcSha256(c, key), "signature does not verify over the (manipulated) TBS bytes with the real key")
+		if useRsa {
+			h := crypto.SHA256.New()
+			h.Write(vDer(c.TBSCertificate))
+			vAssert(rsa.VerifyPKCS1v15(&key.(*rsa.PrivateKey).PublicKey, crypto.SHA256, h.Sum(nil), c.SignatureValue.Bytes) == nil, "signature does not verify over the (manipulated) TBS bytes with the real key")
+		} else {
+			vAssert(vVerifiesEcSha256(c, key.(*ecdsa.PrivateKey)), "signature does not verify over the (manipulated) TBS bytes with the real key")
+		}
 	}
 	if sub&(1|4|8|32) == 0 {
 		vSameBytes(vDer(ct), vDer(bt), "an outer manipulation changed the signed bytes")
